@@ -406,6 +406,7 @@ class Check:
 
         ev = {"evaluations": 0, "distinct": set(), "samples": [], "dist": {}, "corr_compared": 0}
         diffs, viols = [], []
+        sig_count = {}
 
         def one(case, source):
             ev["evaluations"] += 1
@@ -427,7 +428,9 @@ class Check:
                     if len(diffs) < 50:
                         diffs.append({"case": case, "impl": res, "model": mres, "source": source})
             for msg in self.oracle(case, res):
-                if len(viols) < 200:
+                sig = self.signature(case, msg)
+                sig_count[sig] = sig_count.get(sig, 0) + 1
+                if sig_count[sig] <= 3 and len(viols) < 600:   # per-signature cap: a frequent class cannot crowd out a new one
                     viols.append((case, msg))
 
         for c in self.corpus_cases():
@@ -436,6 +439,7 @@ class Check:
             one(c, "generated")
         for c, msg in self.extra_checks(tier, rng, ev):
             viols.append((c, msg))
+        ev["oracle_reports"] = sum(sig_count.values())
         need_search = bool(pinfo["broken"] or diffs or corr_broken) and not viols
         if need_search:
             self.say(f"[{self.pid}] something broke and no failing input yet: searching (budget {self.search_budget[tier]}s)")
@@ -524,7 +528,7 @@ class Check:
         for l in out_lines:
             print(l, flush=True)
         self.say(f"[{self.pid}] tier={tier} seed={seed} evaluations={ev['evaluations']} distinct_nontrivial={len(ev['distinct'])} "
-                 f"corr={ev['corr_compared']} diffs={len(diffs)} oracle_violations={len(viols)} wall={wall:.1f}s exit={exit_code}")
+                 f"corr={ev['corr_compared']} diffs={len(diffs)} oracle_violations={max(len(viols), ev.get('oracle_reports', 0))} wall={wall:.1f}s exit={exit_code}")
         return exit_code
 
     def shrink(self, case, msg):
